@@ -58,6 +58,8 @@ type VaultEvent struct {
 	Load   int       `json:"load"` // number of the refresh round (count of preflights so far)
 	Late   bool      `json:"late"` // renew: arrived after the token's expiry
 	Keys   []string  `json:"keys,omitempty"`
+	IDs    []int     `json:"ids,omitempty"` // Install: serials of the snapshot
+	C      int       `json:"c"`             // HsStart / HsEnd: client
 	Expiry time.Time `json:"-"`
 }
 
@@ -335,8 +337,36 @@ func (f *VaultFake) serve(w http.ResponseWriter, r *http.Request, path string) {
 		return
 	}
 	f.nextID++
-	ev := VaultEvent{Ev: "Req", ID: f.nextID, At: time.Now()}
-	ans := f.decide(r, path, body, &ev)
+	ev := VaultEvent{Ev: "Req", ID: f.nextID}
+	ev.Kind, ev.Name = f.classify(r, path)
+	if ev.Kind == "issue" {
+		var in struct {
+			CN string `json:"common_name"`
+		}
+		json.Unmarshal(body, &in)
+		ev.Name = in.CN
+	}
+	if ev.Kind == "mounts" {
+		f.loads++
+	}
+	if f.hold[ev.Kind] {
+		// a held request is decided when it is released (that is its linearisation point)
+		f.log = append(f.log, VaultEvent{Seq: len(f.log) + 1, At: time.Now(), Ev: "Hold", Kind: ev.Kind, Name: ev.Name, ID: ev.ID, Load: f.loads})
+		f.cond.Broadcast()
+		for f.hold[ev.Kind] && !f.released[ev.ID] && !f.closed {
+			f.cond.Wait()
+		}
+		if f.closed {
+			f.mu.Unlock()
+			select {
+			case <-r.Context().Done():
+			case <-theFarm().quit:
+			}
+			return
+		}
+	}
+	ev.At = time.Now()
+	ans := f.decide(body, &ev)
 	ev.Seq = len(f.log) + 1
 	ev.Load = f.loads
 	f.log = append(f.log, ev)
@@ -344,9 +374,6 @@ func (f *VaultFake) serve(w http.ResponseWriter, r *http.Request, path string) {
 	slow := time.Duration(0)
 	if f.fault[ev.Kind] == "slow" {
 		slow = f.slowBy
-	}
-	for f.hold[ev.Kind] && !f.released[ev.ID] && !f.closed {
-		f.cond.Wait()
 	}
 	f.mu.Unlock()
 	if slow > 0 {
@@ -364,12 +391,8 @@ func (f *VaultFake) serve(w http.ResponseWriter, r *http.Request, path string) {
 }
 
 // decide computes the answer from the present state (called with the mutex held).
-func (f *VaultFake) decide(r *http.Request, path string, body []byte, ev *VaultEvent) vaultAnswer {
-	kind, name := f.classify(r, path)
-	ev.Kind, ev.Name = kind, name
-	if kind == "mounts" {
-		f.loads++
-	}
+func (f *VaultFake) decide(body []byte, ev *VaultEvent) vaultAnswer {
+	kind, name := ev.Kind, ev.Name
 	fault := f.fault[kind]
 	dead := f.tokDead || (f.tokEnforce && f.tokExpires && time.Now().After(f.tokExp))
 	if dead && kind != "other" {
@@ -484,11 +507,8 @@ func (f *VaultFake) decide(r *http.Request, path string, body []byte, ev *VaultE
 		}
 		return vOK(map[string]any{"data": data})
 	case "issue":
-		var in struct {
-			CN string `json:"common_name"`
-		}
-		json.Unmarshal(body, &in)
-		ev.Name = in.CN
+		var in struct{ CN string }
+		in.CN = name
 		if in.CN == "" {
 			ev.Ans = "badname"
 			return vErr(400, "the common_name field is required")
